@@ -199,6 +199,7 @@ struct InterpUnit {
         if (op == "new") { RestoreMem(); Fresh(); return "ok"; }
         if (op == "gen" && a.size() == 2) {   // resync: registers from seed, memory background from seed
             RestoreMem();
+            t->Reset();   // peripherals/MIU back to power-on (a previous case may have stored into MMIO)
             bg_seed = H(a[1]);
             bg_on = true;
             Gen(bg_seed);
